@@ -325,3 +325,23 @@ Definition ep_checksums_add_ops (v : pyval) : pyval :=
 
 Definition entries_cs : list (str * (pyval -> pyval)) :=
   [ (lit "normpath", ep_normpath); (lit "add_checksum_ops", ep_add_checksum_ops); (lit "checksums_add_ops", ep_checksums_add_ops) ].
+
+(* ---------------- compose directory *)
+From PM Require Import Model.ComposeDir.
+
+(* [p; existing paths; listing of p] -> compose_path and, per accessor, the file that would be loaded *)
+Definition ep_resolve (v : pyval) : pyval :=
+  match v with
+  | PList [PStr p; PList ex; PList ls] =>
+      match get_strs ex, get_strs ls with
+      | Some exs, Some lss =>
+          let exists_ q := mem_str q exs in
+          let cp := resolve exists_ (fun _ => lss) p in
+          let f names := out_result PStr (find_file exists_ cp names) in
+          PList [PStr cp; f names_info; f names_images; f names_rpms; f names_modules]
+      | _, _ => bad_input
+      end
+  | _ => bad_input
+  end.
+
+Definition entries_dir : list (str * (pyval -> pyval)) := [ (lit "resolve", ep_resolve) ].
